@@ -314,7 +314,7 @@ Definition all_true (l : list bool) : bool := forallb (fun b => b) l.
 Definition check_main (kind : string) (input output : J) : verdict :=
   if String.eqb kind "jl" then
     match input, output with
-    | JL [JL items; JI per; JI _; JI _],
+    | JL [JL items; JI per; JI _; JI parts],
       JL [tag; JL [JI total; jranges; jwhole; jseq; jpar; jseqck; jparck]] =>
         match omap dec_item items, dec_ranges jranges,
               dec_read dec_smalls jwhole, dec_read dec_smalls jseq, dec_read dec_smalls jpar,
@@ -329,8 +329,8 @@ Definition check_main (kind : string) (input output : J) : verdict :=
               && outcome_eqb recs_eqb owhole (read_vec de_small ls)
               && outcome_eqb recs_eqb oseq (stream_seq de_small ls per)
               && outcome_eqb recs_eqb opar (stream_par de_small ls per)
-              && outcome_eqb recs_eqb oseqck (exec_source ESeqCk (jsonl_source de_small ls per))
-              && outcome_eqb recs_eqb oparck (exec_source EParCk (jsonl_source de_small ls per)) in
+              && outcome_eqb recs_eqb oseqck (exec_source ESeqCk (Z.to_N parts) (jsonl_source de_small ls per))
+              && outcome_eqb recs_eqb oparck (exec_source EParCk (Z.to_N parts) (jsonl_source de_small ls per)) in
             let prop :=
               tiles_ref oranges (Z.to_N total) per
               && same_or_both_fail recs_eqb oseq owhole
@@ -494,13 +494,24 @@ Definition check_main (kind : string) (input output : J) : verdict :=
             let ref := List.concat (map snd (min_first (List.length matched)
                                           (map (fun f => (flat_key (fst f), snd f)) matched))) in
             match output with
-            | JL [tag; JL [jids; JB pay]] =>
-                match jints jids with
-                | Some oids =>
-                    ok_verdict (jtag_is "ok" tag && pay && outcome_eqb zlist_eqb (Ok oids) model)
+            | JL [tag; JL [jids; JB pay; JL jothers]] =>
+                (* jothers: the same (eagerly loaded, in-memory) collection under collect_par,
+                   Runner{Sequential, checkpointing}, Runner{Parallel, checkpointing} *)
+                match jints jids, omap (dec_read jints) jothers with
+                | Some oids, Some others =>
+                    let mothers :=
+                      match model with
+                      | Ok v => map (fun e => exec_source e 3%N (mem_adapter v)) [EPar; ESeqCk; EParCk]
+                      | _ => []
+                      end in
+                    ok_verdict (jtag_is "ok" tag && pay && outcome_eqb zlist_eqb (Ok oids) model
+                                && (List.length others =? 3)%nat
+                                && forallb (fun xy => outcome_eqb zlist_eqb (fst xy) (snd xy)) (combine others mothers))
                                (pay && negb (match matched with [] => true | _ => false end)
-                                && zlist_eqb oids ref)
-                | None => malformed
+                                && zlist_eqb oids ref
+                                && (List.length others =? 3)%nat
+                                && forallb (fun o => outcome_eqb zlist_eqb o (Ok ref)) others)
+                | _, _ => malformed
                 end
             | JL [tag; _] =>
                 if jtag_is "err" tag then
@@ -538,8 +549,9 @@ Definition check_main (kind : string) (input output : J) : verdict :=
   else if String.eqb kind "jz" || String.eqb kind "cz" then
     (* codec dimension: [n; pseed; ext; (h;) shards; via; per; t; p]. The tiling model is unchanged
        and codec transparency (dec (enc b) = b) is C10's hypothesis, so the prediction is plainly
-       "all six read paths (sequential file and parallel file, each whole / streamed seq / streamed
-       par) return the written ids in order"; agree = prop. *)
+       "all eight read paths (sequential file and parallel file, each whole / streamed seq / streamed
+       par, and the parallel file under seq+checkpoint / par+checkpoint) return the written ids in
+       order"; agree = prop. *)
     match input, output with
     | JL (JI n :: JI _ :: _ :: _), JL [tag; JL [JI ca; JI cb; JL outs; JB pay; JI leftover]] =>
         match omap (dec_read jints) outs with
@@ -547,7 +559,7 @@ Definition check_main (kind : string) (input output : J) : verdict :=
             let ids := zrange n in
             let good :=
               jtag_is "ok" tag && (ca =? n) && (cb =? n) && pay && (leftover =? 0)
-              && (Z.of_nat (List.length rs) =? 6)
+              && (Z.of_nat (List.length rs) =? 8)
               && forallb (fun r => outcome_eqb zlist_eqb r (Ok ids)) rs in
             ok_verdict good good
         | None => malformed
@@ -633,7 +645,7 @@ Definition check_main (kind : string) (input output : J) : verdict :=
        configuration; the model runs the engine of each configuration on the format's adapter; the
        property instance: every run returns the written ids (joins: the reference join) *)
     match input, output with
-    | JL [JI fmt; JB _; JI n; JI rg; JI per; JI _; JI _; JI _; JI _; JB _],
+    | JL [JI fmt; JB _; JI n; JI rg; JI per; JI _; JI _; JI parts; JI _; JB _],
       JL [tag; JL [jwhole; JL jouts; JB pay]] =>
         match dec_read jints jwhole, omap (dec_read jints) jouts with
         | Some owhole, Some outs =>
@@ -641,9 +653,9 @@ Definition check_main (kind : string) (input output : J) : verdict :=
             let a := fmt_adapter fmt ids ids rg rg (Z.to_N per) in
             let other := rx_other n in
             let model :=
-              map (fun e => exec_source e a) rx_plain
-              ++ map (fun e => join_side_ids e a other) all_engines
-              ++ map (fun e => join_side_ids e a other) all_engines in
+              map (fun e => exec_source e (Z.to_N parts) a) rx_plain
+              ++ map (fun e => join_side_ids e (Z.to_N parts) a other) all_engines
+              ++ map (fun e => join_side_ids e (Z.to_N parts) a other) all_engines in
             let eq_all (xs ys : list (outcome (list Z))) :=
               (List.length xs =? List.length ys)%nat
               && forallb (fun xy => outcome_eqb zlist_eqb (fst xy) (snd xy)) (combine xs ys) in
@@ -663,7 +675,7 @@ Definition check_main (kind : string) (input output : J) : verdict :=
        other (same records or all fail), equal the whole read when the number of lines / rows /
        row groups is unchanged, and for JSONL / CSV equal the first n1 records of the new file *)
     match input, output with
-    | JL [JI fmt; JB _; JI n1; JI n2; JI rg1; JI rg2; JI per; JI _; JI _; JI _; JI _; JI _], JL [tag; JL [g0; g1]] =>
+    | JL [JI fmt; JB _; JI n1; JI n2; JI rg1; JI rg2; JI per; JI _; JI _; JI parts; JI _; JI _], JL [tag; JL [g0; g1]] =>
         let ids0 := zrange n1 in
         let ids1 := map (fun k => 1000 + k) (zrange n2) in
         let judge (ids : list Z) (rg : Z) (first : bool) (j : J) : option (bool * bool) :=
@@ -672,7 +684,7 @@ Definition check_main (kind : string) (input output : J) : verdict :=
               match dec_read jints jw, omap (dec_read jints) jouts with
               | Some ow, Some outs =>
                   let a := fmt_adapter fmt ids0 ids rg1 rg (Z.to_N per) in
-                  let model := map (fun e => exec_source e a) all_engines in
+                  let model := map (fun e => exec_source e (Z.to_N parts) a) all_engines in
                   let agree :=
                     pay && outcome_eqb zlist_eqb ow (Ok ids)
                     && (List.length outs =? 4)%nat
@@ -719,11 +731,11 @@ Definition check_main (kind : string) (input output : J) : verdict :=
                   end
               | _ => None
               end in
-            let agree_round (ids : list Z) (o : outcome Z * outcome (list (list Z)) * outcome (list Z)) :=
+            let agree_round (ids : list Z) (n : N) (o : outcome Z * outcome (list (list Z)) * outcome (list Z)) :=
               let '(l, sp, c) := o in
               let a := hand_adapter fmt ids rg rs tot in
               outcome_eqb Z.eqb l (match ad_len a with Some x => Ok (Z.of_N x) | None => Err end)
-              && outcome_eqb zparts_eqb sp (ad_split a)
+              && outcome_eqb zparts_eqb sp (ad_split a n)
               && outcome_eqb zlist_eqb c (ad_clone a) in
             let prop_round (ids : list Z) (o : outcome Z * outcome (list (list Z)) * outcome (list Z)) :=
               let '(l, sp, c) := o in
@@ -738,7 +750,7 @@ Definition check_main (kind : string) (input output : J) : verdict :=
             match dec_round r1, dec_round r2, dec_round r3 with
             | Some o1, Some o2, Some o3 =>
                 ok_verdict (jtag_is "ok" tag && allnone && pay
-                            && agree_round idsA o1 && agree_round idsB o2 && agree_round idsA o3)
+                            && agree_round idsA 1%N o1 && agree_round idsB 3%N o2 && agree_round idsA 0%N o3)
                            (allnone && pay && round_eqb o1 o3
                             && prop_round idsA o1 && prop_round idsB o2 && prop_round idsA o3)
             | _, _, _ => malformed
